@@ -628,8 +628,15 @@ func VerifyLinkSignatureThesholds(layout Layout,
 
 				// The link counts for the functionary that the certificate
 				// identifies and whose key verified the signature. The key id
-				// from the signature is only a claim, a functionary must not
-				// count twice by offering a link under a second key id.
+				// from the signature is only a claim: a link that is filed
+				// under another key id than the one of its certificate does
+				// not count, so that a functionary can neither count twice
+				// nor offer a second link that replaces his own, depending
+				// on the order in which the links are visited.
+				if signerKeyID != cert.KeyID {
+					stepErr = fmt.Errorf("link is filed under key id '%s', but signed with the certificate key '%s'", signerKeyID, cert.KeyID)
+					continue
+				}
 				linksPerStepVerified[cert.KeyID] = linkEnv
 			}
 		}
